@@ -76,6 +76,9 @@ type vcTable struct {
 	LinkDelete func(db DB, row any) error
 	InsertMany func(tx *vcsql.Tx, rows []any) error
 	IDsOf      func(rows []any) []int64 // (Ts).IDs() of primary tables
+	ArrayToPQ  func(ids []int64) []int64 // <ID>ArrayToPQ
+	// New<ID>SetFrom(ids): size, Has(probe), Keys(); then Add(probe): Has(probe), Keys()
+	SetOps func(ids []int64, probe int64) (int, bool, []int64, bool, []int64)
 }
 
 func vcTableByName(name string) *vcTable {
@@ -916,6 +919,41 @@ func TestVerifCRUD(t *vctesting.T) {
 					}
 					if got := tb.IDsOf(rows); vcfmt.Sprint(sortInts(got)) != vcfmt.Sprint(sortInts(want)) {
 						fail("(%ss).IDs() returned %v for the ids %v", tb.Go, got, want)
+					}
+				}
+				if tb.ArrayToPQ != nil || tb.SetOps != nil {
+					// a list of ids with repetitions (live and foreign ones) and a probe
+					n := vcrapid.IntRange(0, 6).Draw(rt, "setLen")
+					ids := make([]int64, n)
+					for i := range ids {
+						ids[i] = int64(vcrapid.IntRange(-3, 12).Draw(rt, "setID"))
+					}
+					probe := int64(vcrapid.IntRange(-3, 12).Draw(rt, "setProbe"))
+					if tb.ArrayToPQ != nil {
+						if got := tb.ArrayToPQ(ids); len(got) != len(ids) || vcfmt.Sprint(got) != vcfmt.Sprint(ids) {
+							fail("%s: <ID>ArrayToPQ(%v) = %v", tb.Go, ids, got)
+						}
+					}
+					if tb.SetOps != nil {
+						distinct := map[int64]bool{}
+						for _, id := range ids {
+							distinct[id] = true
+						}
+						keysOf := func(m map[int64]bool) []int64 {
+							var out []int64
+							for k := range m {
+								out = append(out, k)
+							}
+							return sortInts(out)
+						}
+						size, has, keys, hasAfter, keysAfter := tb.SetOps(ids, probe)
+						if size != len(distinct) || has != distinct[probe] || vcfmt.Sprint(sortInts(keys)) != vcfmt.Sprint(keysOf(distinct)) {
+							fail("%s: New<ID>SetFrom(%v): size %d, Has(%d) = %v, Keys() = %v", tb.Go, ids, size, probe, has, keys)
+						}
+						distinct[probe] = true
+						if !hasAfter || vcfmt.Sprint(sortInts(keysAfter)) != vcfmt.Sprint(keysOf(distinct)) {
+							fail("%s: set of %v after Add(%d): Has = %v, Keys() = %v", tb.Go, ids, probe, hasAfter, keysAfter)
+						}
 					}
 				}
 				for _, fk := range tb.FKs {
